@@ -191,9 +191,19 @@ unsafe impl<'a> BufMut for NodeMut<'a> {
             NodeMut::Slice(x) => x.put(src),
             NodeMut::Uninit(x) => x.put(src),
             NodeMut::Seg(x) => x.put(src),
-            // (**x): the adapter's own `put`, not the default one of `Box<T>`
-            NodeMut::Chain(x) => (**x).put(src),
-            NodeMut::Limit(x) => (**x).put(src),
+            // (**x): the adapter's own `put`, not the default one of `Box<T>`. The source is passed
+            // as `&mut dyn Buf`: an adapter that wraps its source (say in a `Take`) before handing it on
+            // would otherwise make this recursive nest instantiate `put` at ever deeper types
+            NodeMut::Chain(x) => {
+                let mut s = src;
+                let d: &mut dyn Buf = &mut s;
+                (**x).put(d)
+            }
+            NodeMut::Limit(x) => {
+                let mut s = src;
+                let d: &mut dyn Buf = &mut s;
+                (**x).put(d)
+            }
             NodeMut::MutRef(x) => {
                 let mut r: &mut NodeMut<'a> = &mut **x;
                 BufMut::put(&mut r, src)
